@@ -1,5 +1,7 @@
 import Eliot.Proofs.ParseFlat
 import Eliot.Proofs.ParseParser
+import Eliot.Proofs.ParseFlatParser
+import Eliot.Properties.C09
 /-!
 # C09 — the algorithm `parse.py` actually runs (flat `_nodes` map, upward walk) computes what the trie model computes
 
@@ -100,6 +102,73 @@ theorem flat_follows_spec (u a : String) (sb eb : Nat) (ok : Bool) (kids : Fores
   refine ⟨T, ft, h1, h2, ?_, hinv.complete_eq, hinv⟩
   rw [hinv.root_eq, hT.root]
   congr 1
+
+/-- **Exact completeness for the flat algorithm:** after any non-empty duplicate-free sub-list of a well-formed action task's
+messages, in any order, `is_complete()` of the code-shaped state is true exactly when every message of the task has arrived. -/
+theorem flat_complete_iff_all_arrived (u a : String) (sb eb : Nat) (ok : Bool) (kids : Forest) (ms : List PMsg)
+    (hne : ms ≠ []) (hnd : ms.Nodup) (hin : ∀ m ∈ ms, m ∈ Tree.msgs u (.node a sb eb ok kids) []) :
+    ∃ ft, FTask.addAll {} ms = .ok ft ∧
+      (ft.isComplete = true ↔ ∀ m ∈ Tree.msgs u (.node a sb eb ok kids) [], m ∈ ms) := by
+  have h0 : TaskOK (fun _ => false) u (.node a sb eb ok kids) {} :=
+    TaskOK.empty (by intro ⟨m, _, hm⟩; cases hm)
+  obtain ⟨T, ft, _, h2, hT, hinv⟩ := flat_follows_spec_gen u a sb eb ok kids ms (fun _ => false) {} {} h0
+    Inv.init hnd (fun m hm => ⟨hin m hm, rfl⟩)
+  refine ⟨ft, h2, ?_⟩
+  rw [hinv.complete_eq]
+  have hTI : TaskIs (fun x => false || ms.contains x) u (.node a sb eb ok kids) T := hT
+  have hsome : someArrived (fun x => false || ms.contains x) u (.node a sb eb ok kids) := by
+    cases ms with
+    | nil => exact absurd rfl hne
+    | cons m rest => exact ⟨m, hin m (by simp), by simp⟩
+  rw [TaskIs.isComplete_iff hTI hsome]
+  simp [allArrived, tmsgs]
+
+/-! ## The whole parser (`Parser.add`, `parse_stream`) over flat tasks -/
+
+theorem domP_of_spec {ts : Spec} (hwf : ts.WF) : ∀ (ms : List PMsg) (S : PMsg → Bool) (p : Parser), POK S ts p →
+    ms.Nodup → (∀ m ∈ ms, m ∈ ts.msgs) → (∀ m ∈ ms, S m = false) → DomP p ms := by
+  intro ms
+  induction ms with
+  | nil => intro _ _ _ _ _ _; trivial
+  | cons m ms ih =>
+    intro S p hp hnd hin hS
+    obtain ⟨u, t, ht, hm⟩ := Spec.mem_msgs (hin m List.mem_cons_self)
+    have hSm := hS m List.mem_cons_self
+    refine ⟨pdom_of_spec hwf hp ht hm hSm, ?_⟩
+    intro done p' hadd
+    obtain ⟨done₁, p₁, hadd₁, hp₁, _⟩ := Parser.add_step hwf hp ht hm hSm
+    rw [hadd₁] at hadd
+    have hpp : p₁ = p' := by cases hadd; rfl
+    subst hpp
+    have hnd' := List.nodup_cons.mp hnd
+    exact ih (ext S m) p₁ hp₁ hnd'.2 (fun x hx => hin x (List.mem_cons_of_mem _ hx)) (by
+      intro x hx
+      have hne : x ≠ m := fun h => hnd'.1 (h ▸ hx)
+      rw [ext_of_ne S m x hne]; exact hS x (List.mem_cons_of_mem _ hx))
+
+/-- **`parse_stream` as the code runs it:** for every forest of well-formed tasks and every duplicate-free sub-list of its
+messages in every order, the parser over flat tasks succeeds and yields, in the same order and under the same uuids, tasks that
+mirror the trie parser's (`PInv`: same `root()`, same `is_complete()`, same `_nodes` entries) - so `feed_ok`,
+`parse_perm_invariant`, `complete_iff_all_arrived`, `never_early`, `yield_exactly_once` and `reconstruct` are statements about
+the flat algorithm as well. -/
+theorem flat_parse_stream_follows_spec {ts : Spec} (hwf : ts.WF) (ms : List PMsg) (hnd : ms.Nodup)
+    (hin : ∀ m ∈ ms, m ∈ ts.msgs) :
+    ∃ out fout, parseStream ms = .ok out ∧ fparseStream ms = .ok fout ∧ PInv fout out := by
+  obtain ⟨done, p, hfeed, _, _, _, _⟩ := C09.feed_spec hwf ms (fun _ => false) [] (POK.init ts) hnd hin (fun _ _ => rfl)
+  have hdom := domP_of_spec hwf ms (fun _ => false) [] (POK.init ts) hnd hin (fun _ _ => rfl)
+  obtain ⟨fdone, fp, hf, h1, h2⟩ := FParser.feed_refines ms [] [] done p PInv.nil hdom hfeed
+  refine ⟨done ++ p, fdone ++ fp, ?_, ?_, h1.append h2⟩
+  · simp only [parseStream, hfeed, bind, Except.bind, pure, Except.pure]
+  · simp only [fparseStream, hf, bind, Except.bind, pure, Except.pure]
+
+/-- what `PInv` gives for each yielded task -/
+theorem PInv.get {fout : List (String × FTask)} {out : List (String × Task)} (h : PInv fout out) :
+    fout.map (·.1) = out.map (·.1) ∧ fout.map (·.2.root) = out.map (·.2.root) ∧
+      fout.map (·.2.isComplete) = out.map (·.2.isComplete) := by
+  induction h with
+  | nil => simp
+  | cons hi _ ih =>
+    simp only [List.map_cons, ih.1, ih.2.1, ih.2.2, hi.root_eq, hi.complete_eq, and_self]
 
 /-! Non-vacuity: a concrete out-of-order stream (end of the inner action first), both algorithms run by the kernel. -/
 def exTree : Tree := .node "outer" 10 19 true (.cons (.leaf 11) (.cons (.node "inner" 12 14 false (.cons (.leaf 13) .nil)) .nil))
